@@ -5,6 +5,7 @@ use super::bb_c06::*;
 use super::bb_c10::*;
 use super::bb_c12::*;
 use super::bb_c18::*;
+use super::bb_config::*;
 use super::bb_graph::*;
 use super::fuzz_driver::*;
 use super::bb_oneshot::*;
@@ -211,6 +212,22 @@ fn bb_replays(ctx: &Ctx, report: &mut Report) -> u64 {
             }
         };
         let r = &v["replay"];
+        if r["engine"].as_str().is_some_and(|e| e.starts_with("BB-cfg-")) {
+            match replay_projset_bb(r) {
+                Ok(res) => {
+                    n += 1;
+                    if let Some(msg) = res.violation {
+                        println!("  replay {} still fails: {}", path.display(), msg);
+                        report.fail(Failure {
+                            message: msg,
+                            signature: res.signature.unwrap_or_default(),
+                            replay: res.replay,
+                        });
+                    }
+                }
+                Err(e) => report.infra_errors.push(e),
+            }
+        }
         if r["engine"] == "BB-c18" {
             match replay_c18(r) {
                 Ok(res) => {
@@ -726,6 +743,8 @@ fn c09(ctx: &Ctx) -> i32 {
             report.fail(f);
         }
     }
+    cfg_bb_part(ctx, &mut report, "c09", 0, true, ctx.tier.pick(40, 600),
+        "same project sets through the real binary with sentinel scripts, pre-existing outputs and (one in three) --clean: reachable defect => exit != 0, no script ran, tree snapshot unchanged (nothing cleaned), no hang; valid => exactly the build targets of the reference closure ran once, each in its own project directory", 209);
     report.finish()
 }
 
@@ -748,6 +767,8 @@ fn c19(ctx: &Ctx) -> i32 {
             report.fail(f);
         }
     }
+    cfg_bb_part(ctx, &mut report, "c19", 0, false, ctx.tier.pick(40, 600),
+        "real binary: requesting root targets under both spellings runs them once; equal target names in several projects each run in their own directory; ran set == reference closure", 219);
     report.finish()
 }
 
@@ -788,6 +809,8 @@ fn c14(ctx: &Ctx) -> i32 {
             replay_raw(ctx, &mut report, "yaml_config", p);
         }
     }
+    cfg_bb_part(ctx, &mut report, "c14", 1, false, ctx.tier.pick(30, 400),
+        "same generated project sets (with schema defects) through the real binary in 5 fresh processes each: identical verdict and identical set of scripts run; on rejection exit != 0, nothing ran, tree unchanged, no panic marker / abort", 214);
     report.finish()
 }
 
@@ -1011,4 +1034,29 @@ fn c18(ctx: &Ctx) -> i32 {
         }
     }
     report.finish()
+}
+
+fn cfg_bb_part(ctx: &Ctx, report: &mut Report, which: &'static str, defects: u8, broken: bool, cases: u32, rule: &str, stream: u64) {
+    bb_replays(ctx, report);
+    if ctx.replay.is_some() {
+        return;
+    }
+    let pr = PropRun {
+        ctx,
+        engine: "BB",
+        rule,
+        total_cases: cases,
+        threads: 8.min(ctx.threads),
+        max_shrink_iters: 60,
+        stream,
+    };
+    let strat = move || {
+        use proptest::prelude::*;
+        (projset(PsParams { defects, broken_refs: broken }), prop::collection::vec(any::<u8>(), 1..=3)).prop_map(|(ps, req)| C09Case { ps, req })
+    };
+    let (part, failures) = run_prop(&pr, strat, |c: &C09Case| eval_projset_bb(c, which));
+    report.add(part);
+    for f in failures {
+        report.fail(f);
+    }
 }
